@@ -7,13 +7,26 @@ reg(Prop('C12', [
     Stream('c12.line', 8000, 500000, 'oracle', timeout=900),
     Stream('c12.vliw', 2000, 100000, 'oracle', timeout=900),
     Stream('c12.arith', 5000, 500000, 'spec', exhaustive='2^k-1, 2^k, 2^k+1 for k in {0,7,8,15,16,30,31,32,33,62,63} for offsets, factored offsets x factors, alignment factors, advance accumulation'),
+    # the converter models against the real converters (the converted write-side objects are compared)
+    Stream('c12.cficonv', 30000, 1000000, 'model', timeout=900),
+    Stream('c12.exprconv', 30000, 1500000, 'model', timeout=900),
+    Stream('c12.listconv', 20000, 1000000, 'model', timeout=900),
+    Stream('c12.attrconv', 30000, 1000000, 'model', timeout=900),
 ], level='proof', design_ref='§5 C12',
-    clauses=['cfi_offset_exact_or_error', 'cfi_factored_offset_exact_or_error', 'cfi_factors_exact_or_error', 'cfi_advance_exact_or_error'],
+    clauses=['cfi_offset_exact_or_error', 'cfi_factored_offset_exact_or_error', 'cfi_factors_exact_or_error', 'cfi_advance_exact_or_error',
+             'cfi_insn_convert_sound', 'cfi_insn_convert_each', 'cfi_convert_write_read_sound', 'cfi_normal_form_cie', 'cfi_normal_form_fde',
+             'expr_convert_sound', 'expr_convert_sound_bytes', 'expr_branch_target_exact', 'expr_offsets_sorted',
+             'expr_converted_well_typed', 'expr_fuel_suffices', 'expr_normal_form_partial',
+             'range_convert_sound', 'loc_convert_sound', 'list_normal_form_v5', 'list_normal_form_v4',
+             'attr_convert_sound', 'attr_file_index_rule', 'attr_file_index_written', 'attr_implicit_const',
+             'attr_flag_present', 'attr_dwo_id_normal_form'],
     explored_only=[
-        'whole-pipeline meaning preservation (Dwarf::from, FrameTable::from for both sections): semantic-dump oracle on the compiler corpus and on generated CFI / line programs',
-        'second conversion reproduces the first (semantic equality + identical abbreviation table)',
+        'whole-pipeline meaning preservation (Dwarf::from with entry ids / string tables / line programs, FrameTable::from for both sections incl. CIE/FDE headers, pointer encodings, personality/LSDA): semantic-dump oracle on the compiler corpus and on generated CFI / line programs',
+        'ConvertLineProgram (line_convert_sound): oracle streams c12.line / c12.vliw only; two known findings (mid-sequence set_address, VLIW op_index)',
+        'second conversion reproduces the first for whole expressions and whole units (semantic equality + identical abbreviation table): oracle; proved for CFI programs, range/location lists and, per operation, for expressions (expr_normal_form_partial)',
+        'the converted table read back has an unwind table at all (cfi_convert_write_read_sound is conditional on the read-back run succeeding; the oracle stream c12.cfi re-reads every converted table)',
     ],
-    technique='semantic-dump round-trip oracle on the implementation (meaning(in) = meaning(read(write(convert(in)))) or Err) + Coq theorems on the conversion arithmetic',
-    level_text='PARTIAL: the component theorems of DESIGN §5 C12 are being added; today the property is decided by the impl-side oracle: gimli\'s own reader computes the meaning (forest with resolved strings/addresses/ranges/locations/references, line rows with resolved files, unwind rows) of the input and of the converted+written output, which must be equal unless conversion returns an error; a second conversion must reproduce the output.',
-    level_note='Trusted: harness/src/dump.rs (meaning function: merges identical adjacent unwind rows, drops empty line sequences, applies the writer\'s documented base-types-first order, ignores DW_AT_sibling/*_base/GNU_locviews which the converter documents as not carried). Skeleton units (.dwo links) are outside the stream.',
+    technique='Coq component theorems that compose the reader-side meaning (C03/C06/C07/C08) with the writer-side read-back theorems (C11/C14/C15/C16) through hand-written models of the converters, each model tied to gimli by a correspondence stream comparing the converted write-side objects; plus the semantic-dump round-trip oracle on the implementation (meaning(in) = meaning(read(write(convert(in)))) or Err)',
+    level_text='PARTIAL: proved per component — CFI instruction programs (every instruction variant; unwind tables of source and converted programs agree at every address, also after writing and decoding), expressions (every operation variant up to the documented normal forms; branches land on the designated operation; bad targets are InvalidBranchTarget), range and location lists (resolved ranges preserved), self-contained attribute values incl. the file-index rule, normal form for CFI programs and lists. Whole-unit conversion and line programs are decided by the impl-side oracle: gimli\'s own reader computes the meaning (forest with resolved strings/addresses/ranges/locations/references, line rows with resolved files, unwind rows) of the input and of the converted+written output, which must be equal unless conversion returns an error; a second conversion must reproduce the output.',
+    level_note='Trusted: harness/src/dump.rs (meaning function: merges identical adjacent unwind rows, drops empty line sequences, applies the writer\'s documented base-types-first order, ignores DW_AT_sibling/*_base/GNU_locviews which the converter documents as not carried); the Debug rendering of write-side objects used by the c12.*conv streams (whitespace and base_id removed). Hypotheses of the theorems: address sizes <= 8 (CFI), non-relocating convert_address (lists, attributes), values of the Rust field types where stated. Skeleton units (.dwo links) are outside the stream.',
 ))
